@@ -29,20 +29,24 @@ func RenameArgumentsAction(newNames []string) RewriteAction {
 			return []ast.Option{option}
 		}
 
-		for i, arg := range option.Args {
-			previousName := arg.Name
-			option.Args[i].Name = newNames[i]
+		// arguments and assignments can be shared with other options (merged,
+		// composed builders, ...): work on a copy.
+		newOpt := option.DeepCopy()
 
-			for j, assignment := range option.Assignments {
+		for i, arg := range newOpt.Args {
+			previousName := arg.Name
+			newOpt.Args[i].Name = newNames[i]
+
+			for j, assignment := range newOpt.Assignments {
 				if assignment.Value.Argument != nil && assignment.Value.Argument.Name == previousName {
-					option.Assignments[j].Value.Argument.Name = newNames[i]
+					newOpt.Assignments[j].Value.Argument.Name = newNames[i]
 				}
 			}
 		}
 
-		option.AddToVeneerTrail("RenameArguments")
+		newOpt.AddToVeneerTrail("RenameArguments")
 
-		return []ast.Option{option}
+		return []ast.Option{newOpt}
 	}
 }
 
@@ -83,7 +87,8 @@ func ArrayToAppendAction() RewriteAction {
 		// Update the assignment to do an append instead of a list assignment
 		oldAssignments := option.Assignments
 
-		newFirstAssignment := option.Assignments[0]
+		// the assignment's value can be shared with other options: work on a copy.
+		newFirstAssignment := option.Assignments[0].DeepCopy()
 		newFirstAssignment.Method = ast.AppendAssignment
 		// TODO: what if there is an envelope in the value assignment?
 		if newFirstAssignment.Value.Argument != nil {
@@ -147,7 +152,8 @@ func MapToIndexAction() RewriteAction {
 		// Update the assignment to do an append instead of a list assignment
 		oldAssignments := option.Assignments
 
-		newFirstAssignment := option.Assignments[0]
+		// the assignment's value can be shared with other options: work on a copy.
+		newFirstAssignment := option.Assignments[0].DeepCopy()
 		newFirstAssignment.Method = ast.IndexAssignment
 		newFirstAssignment.Path = newFirstAssignment.Path.Append(ast.Path{{
 			Index: &ast.PathIndex{Argument: &newFirstArg},
